@@ -11,7 +11,7 @@
  *   CX <k> <t>         __cyg_profile_func_exit(f<k>) at time t               -> "CX"
  *   EA <k> <t> <rdi> <rsi> <rdx> <rcx> <r8> <r9> [stack words...]
  *                      -pg entry with a synthetic register frame; a word "@S<i>" is the address
- *                      of string <i>, "@BAD" an unmapped address, "@BRK" an unmapped address 8 MiB behind the heap, "@F<k>" the address of f<k>                -> like E
+ *                      of string <i>, "@BAD" an unmapped address, "@BRK" an unmapped address 8 MiB behind the heap, "@EDGE" the inaccessible page behind a readable one, "@F<k>" the address of f<k>                -> like E
  *   XR <t> <rax> [<rdx>]   exit with return value                              -> like X
  *   STR <i> <hex>      define string i (NUL appended)
  *   STATE              filter state of the current thread -> "S in out depth max time size idx ridx enabled"
@@ -227,6 +227,7 @@ static int gettid_(void)
 	return syscall(SYS_gettid);
 }
 
+static unsigned long edge_addr; /* C09: end of a readable page = start of an inaccessible one */
 static unsigned long brk_gap; /* C09: end of the heap at start-up + 8 MiB (the heap of the driver stays far below) */
 
 /* C09: lowest mapped address of the [stack] mapping minus 64 KiB (inside the guard gap: not mapped) */
@@ -248,6 +249,8 @@ static unsigned long parse_word(const char *w)
 	if (w[0] == '@') {
 		if (!strcmp(w, "@BAD"))
 			return (unsigned long)bad_page + 16;
+		if (!strcmp(w, "@EDGE")) /* C09: first byte of a PROT_NONE page right behind a readable mapping */
+			return edge_addr;
 		if (!strcmp(w, "@BRK")) /* C09: an unmapped address shortly behind the end of the heap */
 			return brk_gap;
 		if (!strcmp(w, "@STK")) /* C09: an unmapped address shortly below the mapped stack */
@@ -566,7 +569,7 @@ static void do_op(struct drv *dv, char *line)
 	}
 	else if (!strcmp(op, "ADDR")) {
 		/* C09: addresses the driver needs to build a synthetic data directory / the model's inputs */
-		printf("ADDR %lu %lu %lu\n", (unsigned long)f0, (unsigned long)bad_page + 16, brk_gap);
+		printf("ADDR %lu %lu %lu %lu\n", (unsigned long)f0, (unsigned long)bad_page + 16, brk_gap, edge_addr);
 	}
 	else if (!strcmp(op, "DUMPRAW")) {
 		/* C09: the exact byte stream this thread has written (all its shm buffers, in order) */
@@ -689,6 +692,12 @@ int main(void)
 	setvbuf(stdout, NULL, _IOFBF, 1 << 16);
 	bad_page = mmap(NULL, 4096, PROT_NONE, MAP_PRIVATE | MAP_ANONYMOUS, -1, 0);
 	brk_gap = (unsigned long)sbrk(0) + (8UL << 20) + 24;
+	{
+		char *two = mmap(NULL, 8192, PROT_READ | PROT_WRITE, MAP_PRIVATE | MAP_ANONYMOUS, -1, 0);
+		memset(two, 'E', 4096);
+		mprotect(two + 4096, 4096, PROT_NONE);
+		edge_addr = (unsigned long)two + 4096;
+	}
 	fake_on = 1;
 	ensure_thread(0);
 	while (fgets(line, sizeof line, stdin)) {
